@@ -1,7 +1,7 @@
 (* C09 — correspondence: one case = static heap description, the observables of the pool, the
    initial snapshot and the history of (operation, observation recorded from the implementation). *)
 From Coq Require Import ZArith List Arith Bool PeanoNat.
-From TV Require Import Common.Harness C09.Model C09.Law.
+From TV Require Import Common.Harness C09.Model C09.Dyn C09.Law.
 Import ListNotations.
 
 (* object description: oid, kind, trait names, link fields (name, value objects), items *)
@@ -36,7 +36,9 @@ Inductive rop :=
 | RUnregister (x : oid) (hd dp : nat) (gis : list nat)
 | RChange (o : oid) (f : fname)
 | RCollectOwner (hd : nat)
-| RCollectObj (o : oid).
+| RCollectObj (o : oid)
+| RSetLink (o : oid) (f : fname) (v : list oid)
+| RSetItems (c : oid) (v removed added : list oid) (fired : bool).
 Record riobs := mkRI { r_out : option exn; r_calls : list nat; r_snap : rsnap; r_dead : option bool }.
 
 Record case := mkCase {
@@ -56,18 +58,20 @@ Definition notifier_of (gt : list graph) (n : rnotifier) : notifier :=
   end.
 Definition snap_of (gt : list graph) (s : rsnap) : snap :=
   map (fun p => (fst p, map (notifier_of gt) (snd p))) s.
-Definition op_of (gt : list graph) (o : rop) : op :=
+Definition op_of (gt : list graph) (o : rop) : dop :=
   match o with
-  | RRegister x hd dp gis => Register x hd dp (map (gref gt) gis)
-  | RUnregister x hd dp gis => Unregister x hd dp (map (gref gt) gis)
-  | RChange o f => Change o f
-  | RCollectOwner hd => CollectOwner hd
-  | RCollectObj o => CollectObj o
+  | RRegister x hd dp gis => DStatic (Register x hd dp (map (gref gt) gis))
+  | RUnregister x hd dp gis => DStatic (Unregister x hd dp (map (gref gt) gis))
+  | RChange o f => DStatic (Change o f)
+  | RCollectOwner hd => DStatic (CollectOwner hd)
+  | RCollectObj o => DStatic (CollectObj o)
+  | RSetLink o f v => DSetLink o f v
+  | RSetItems c v removed added fired => DSetItems c v removed added fired
   end.
 Definition iobs_of (gt : list graph) (r : riobs) : iobs :=
   mkI (r_out r) (r_calls r) (snap_of gt (r_snap r)) (r_dead r).
 Definition c_init (c : case) : snap := snap_of (c_graphs c) (c_rinit c).
-Definition c_hist (c : case) : list (op * iobs) :=
+Definition c_hist (c : case) : list (dop * iobs) :=
   map (fun p => (op_of (c_graphs c) (fst p), iobs_of (c_graphs c) (snd p))) (c_rhist c).
 
 Fixpoint natlist_eqb (a b : list nat) : bool :=
@@ -83,24 +87,38 @@ Definition zchk (c : nat) (b : bool) : list nat := if b then [] else [c].
 
 (* codes: 100*step + 1 outcome class, 2 handler calls, 3 some notifier list *)
 (* The model is re-synchronised on the implementation's snapshot after every step. *)
-Fixpoint corr_hist (h : heap) (univ : list obsv) (i : nat) (prev : snap) (s : state) (hist : list (op * iobs)) : list nat :=
+Fixpoint corr_hist (univ : list obsv) (i : nat) (prev : snap) (d : dstate) (hist : list (dop * iobs)) : list nat :=
   match hist with
   | [] => []
   | (o, ob) :: r =>
       let cur := i_snap ob ++ prev in
-      let '(s', m) := step h s o in
+      let '(d', m) := dstep d o in
+      let s' := d_st d' in
       map (fun c => (100 * i + c)%nat)
           (zchk 1 (oexn_eqb (o_out m) (i_out ob))
            ++ zchk 2 (natlist_eqb (map k_handler (o_calls m)) (i_calls ob))
            ++ zchk 3 (forallb (fun o => memb (fst o) (dead_objs s')
                                          || nl_perm (st_hooks s' o) (snap_get cur o)) univ))
-      ++ corr_hist h univ (S i) cur (mkState (hooks_of cur) (dead_handlers s') (dead_objs s')) r
+      ++ corr_hist univ (S i) cur (mkD (d_heap d') (mkState (hooks_of cur) (dead_handlers s') (dead_objs s'))) r
+  end.
+
+Definition lstep_of (h : heap) (o : dop) : lstep * heap :=
+  match o with
+  | DStatic o' => (LStatic o', h)
+  | DSetLink x f v => let h' := set_links h x f v in (LMut h', h')
+  | DSetItems c v _ _ _ => let h' := set_items h c v in (LMut h', h')
+  end.
+Fixpoint lhist_of (h : heap) (hist : list (dop * iobs)) : list (lstep * iobs) :=
+  match hist with
+  | [] => []
+  | (o, ob) :: r => let '(l, h') := lstep_of h o in (l, ob) :: lhist_of h' r
   end.
 
 Definition corr_codes (c : case) : list Z :=
-  map Z.of_nat (corr_hist (heap_of (c_heap c)) (c_univ c) 0 (c_init c) (mkState (hooks_of (c_init c)) [] []) (c_hist c)).
+  map Z.of_nat (corr_hist (c_univ c) 0 (c_init c) (mkD (heap_of (c_heap c)) (mkState (hooks_of (c_init c)) [] [])) (c_hist c)).
 Definition law_codes (c : case) : list Z :=
-  map Z.of_nat (law_hist (heap_of (c_heap c)) (c_univ c) (c_init c) 0 (mkL [] []) [] [] (c_init c) (c_hist c)
+  map Z.of_nat (law_hist_dyn (c_univ c) (c_init c) 0 (heap_of (c_heap c)) (mkL [] []) [] [] (c_init c)
+                             (lhist_of (heap_of (c_heap c)) (c_hist c))
                 ++ (if c_pool_collected c then [] else [7%nat])).
 
 (* typed constructors for the generated case terms (elaboration of plain tuples is several times slower) *)
